@@ -176,6 +176,11 @@ fn data(o: &Obs) -> (String, Uuid, Vec<String>) {
 /// set may be the old one with new data (the rebuild is its own transaction) but not vice versa.
 fn classify(got: &Obs, before: &Obs, after: &Obs) -> Result<&'static str, String> {
     let (gd, bd, ad) = (data(got), data(before), data(after));
+    if bd == ad && before.ws == after.ws && gd == bd && got.ws == before.ws {
+        // the action changes nothing on this prior (a rebuild of a working set that is already in
+        // order): before and after cannot be told apart, either is what the property asks for
+        return Ok("same");
+    }
     if gd == bd && got.ws == before.ws {
         return Ok("before");
     }
@@ -268,7 +273,7 @@ fn abandon_sweep(rep: &Report, c: &Case, stride: usize) {
             let problem = match (&outcome, verdict) {
                 _ if ro_mismatch.is_some() => ro_mismatch,
                 (_, Err(e)) => Some(format!("torn-state: {e}")),
-                (Some(Ok(())), Ok(s)) if s != "after" => Some(format!("not-durable: the action returned success but the re-opened store is in state '{s}'")),
+                (Some(Ok(())), Ok(s)) if s != "after" && s != "same" => Some(format!("not-durable: the action returned success but the re-opened store is in state '{s}'")),
                 (Some(Err(_)), Ok("after")) | (None, Ok("after")) if c.calls[k] != "commit" && !later_txn(&c.calls, k) => {
                     Some("uncommitted-visible: the action was abandoned before its commit but its effects are visible".to_string())
                 }
@@ -403,7 +408,7 @@ fn kill_sweep(rep: &Report, c: &Case, max_points: usize) {
             Ok((_, Some(m))) => Some(m),
             Ok((got, None)) => match classify(&got, &c.before, &c.after) {
                 Err(e) => Some(format!("torn-state: {e}")),
-                Ok(s) if acked && s != "after" => Some(format!("not-durable: the child acknowledged the action, was killed afterwards, and the re-opened store is in state '{s}'")),
+                Ok(s) if acked && s != "after" && s != "same" => Some(format!("not-durable: the child acknowledged the action, was killed afterwards, and the re-opened store is in state '{s}'")),
                 Ok(_) => None,
             },
         };
